@@ -70,6 +70,9 @@ func newBlobStore() *blobStore {
 
 func (b *blobStore) serve(w http.ResponseWriter, r *http.Request) {
 	fid := strings.TrimPrefix(r.URL.Path, "/")
+	if i := strings.Index(fid, ","); i >= 0 { // canonical form: the key part without leading zeros
+		fid = fid[:i+1] + strings.TrimLeft(fid[i+1:], "0")
+	}
 	switch r.Method {
 	case "POST", "PUT":
 		mr, err := r.MultipartReader()
